@@ -64,10 +64,10 @@ Definition run_ifm_area (a : list Z) : list Z :=
   | _ => [-1]
   end.
 
-(* CMD rb_shape = 6 : p_h p_w p_d c_h c_w -> n h w d *)
+(* CMD rb_shape = 6 : p_h p_w p_d c_h c_w consumer_ifm_rows -> n h w d *)
 Definition run_rb_shape (a : list Z) : list Z :=
   match a with
-  | [ph; pw; pd; ch; cw] => let '(n, h, w, d) := rolling_buffer_shape ph pw pd ch cw in [n; h; w; d]
+  | [ph; pw; pd; ch; cw; rows] => let '(n, h, w, d) := rolling_buffer_shape ph pw pd ch cw rows in [n; h; w; d]
   | _ => [-1]
   end.
 
@@ -181,13 +181,13 @@ Definition run_check_taps (a : list Z) : list Z :=
   | _ => [-1]
   end.
 
-(* CMD cascade = 13 : geom(9) hc hp -> stripe_input_h buffer_h all_rows_present n_events *)
+(* CMD cascade = 13 : geom(9) hc hp -> stripe_input_h stripe_ifm_rows buffer_h all_rows_present n_events *)
 Definition run_cascade (a : list Z) : list Z :=
   let '(gl, r) := take_n 9 a in
   match mk_geom gl, r with
   | Some g, [hc; hp] =>
       let evs := cascade_events g hc hp in
-      [stripe_input_h g hc; buffer_h g hc hp; bz (run_events (buffer_h g hc hp) rb_empty evs); Z.of_nat (List.length evs)]
+      [stripe_input_h g hc; stripe_ifm_rows g hc; buffer_h g hc hp; bz (run_events (buffer_h g hc hp) rb_empty evs); Z.of_nat (List.length evs)]
   | _, _ => [-1]
   end.
 
